@@ -108,6 +108,7 @@ def region(fb, entry, mods, limit=400):
     """Functions reachable from entry through calls that stay inside the twin-private modules (same side)."""
     is_async = "r#async::" in entry
     shared = shared_sync(fb)
+    crate = fb.fns[entry].crate if entry in fb.fns else None
     seen = []
     seenset = set()
     stack = [entry]
@@ -129,6 +130,10 @@ def region(fb, entry, mods, limit=400):
             if is_async != ("r#async::" in c):
                 continue
             if c in shared:
+                continue
+            # twin-private = the entry's own crate: CHA edges into other crates (every impl of io::Read ...) are
+            # shared code and become tokens, they are not traversed
+            if fb.fns[c].crate != crate:
                 continue
             if _module(norm_callee(c)) in mods:
                 stack.append(c)
